@@ -81,6 +81,8 @@ def decodeR : Ty → Prog Val
   | .bytes => (compactDec 4).bind fun len => .rawBytes len fun bs => .pure (.bytes bs)
   | .box sz t =>
       .descend fun _ => .alloc sz fun _ => (decodeR t).bind fun v => .ascend fun _ => .pure v
+  | .wrap t =>
+      .descend fun _ => (decodeR t).bind fun v => .ascend fun _ => .pure v
   | .duration =>
       .read 8 fun s => .read 4 fun n =>
         if fromLe n ≥ 1000000000 then .fail else .pure (.seq [.nat (fromLe s), .nat (fromLe n)])
@@ -125,6 +127,7 @@ def reqRatio : Ty → Nat
   | .str => 1
   | .bytes => 1
   | .box _ t => reqRatio t
+  | .wrap t => reqRatio t
   | .range t => reqRatio t
   | .bitseq _ _ => 1
   | .enum _ ts => ratioList ts
@@ -146,6 +149,7 @@ def reqAllow : Ty → Nat
   | .str => maxPrealloc
   | .bytes => maxPrealloc
   | .box _ t => reqAllow t
+  | .wrap t => reqAllow t
   | .range t => reqAllow t
   | .bitseq _ _ => maxPrealloc
   | .enum _ ts => allowList ts
@@ -170,6 +174,7 @@ def reqMaxOne : Ty → Nat
   | .str => maxPrealloc
   | .bytes => maxPrealloc
   | .box sz t => max sz (reqMaxOne t)
+  | .wrap t => reqMaxOne t
   | .range t => reqMaxOne t
   | .bitseq _ _ => maxPrealloc
   | .enum _ ts => maxList ts
